@@ -187,7 +187,7 @@ func (e *Engine) vpCall(st *State, name string, args []Value, site ssa.Instructi
 	case "Param":
 		p := constStr(args[0], "vp.Param name")
 		v, ok := e.cfg.Params[p]
-		if !ok {
+		if !ok && p != "NSHARDS" && p != "SHARD" {
 			unsup("missing harness parameter %q", p)
 		}
 		ret(st, KInt64(int64(v)))
